@@ -168,15 +168,16 @@ Section Ed25519Lib.
 
     (* crypto_scalarmult_ed25519_noclamp(n, p), as libsodium 1.0.18+ behaves (observed, and in its source):
        p must be canonical (y < q), on the curve, in the prime-order subgroup and not the identity;
-       bit 255 of the scalar is CLEARED (t[31] &= 127); a zero scalar or an identity result is an error. *)
+       bit 255 of the scalar is CLEARED (t[31] &= 127); a zero scalar or an identity result is an error.
+       The library maps every such nacl RuntimeError to ValueError (try/except in point_scalar_mul[_base]). *)
     Definition point_scalar_mul_bytes (sb pb : list N) : res (list N) :=
       if negb (point_is_encoded_bytes sb && point_is_encoded_bytes pb) then Err TypeError else
       P <- point_decode_no_check pb ;;
       if negb ((snd P <? q) && on_curve P && in_prime_subgroup P
-               && negb (zpt_eqb (fst P mod q, snd P mod q) ed_zero)) then Err SodiumError else
+               && negb (zpt_eqb (fst P mod q, snd P mod q) ed_zero)) then Err ValueError else
       let s := int_decode sb in
       let R := ed_smul (Z.land s clamp) P in
-      if zpt_eqb R ed_zero || (s =? 0) then Err SodiumError else point_encode R.
+      if zpt_eqb R ed_zero || (s =? 0) then Err ValueError else point_encode R.
     (* point_scalar_mul with an int scalar *)
     Definition point_scalar_mul_int (s : Z) (pb : list N) : res (list N) :=
       sb <- int_encode s ;; point_scalar_mul_bytes sb pb.
@@ -186,7 +187,7 @@ Section Ed25519Lib.
       if negb (point_is_encoded_bytes sb) then Err TypeError else
       let s := int_decode sb in
       let R := ed_smul (Z.land s clamp) g in
-      if zpt_eqb R ed_zero || (s =? 0) then Err SodiumError else point_encode R.
+      if zpt_eqb R ed_zero || (s =? 0) then Err ValueError else point_encode R.
     Definition point_scalar_mul_base_int (s : Z) : res (list N) :=
       sb <- int_encode s ;; point_scalar_mul_base_bytes sb.
   End WithXrec.
